@@ -366,6 +366,12 @@ write_value(std::ostream &s, Val v) {
     return s << std::scientific << std::setprecision(20) << v;
 }
 
+// 8bit integers are written as numbers, not as characters
+// (mm_reader::read_value reads them back as numbers).
+inline std::ostream& write_value(std::ostream &s, char v) {
+    return s << static_cast<int>(v);
+}
+
 } // namespace detail
 
 /// Write dense array in Matrix Market format.
